@@ -294,7 +294,19 @@ fn process_deposits_for_single_pool<C: ContentAddrStore>(
         .map(|tx| tx.outputs[1].value.0)
         .fold(0u128, |a, b| a.saturating_add(b));
 
-    let total_mtsqrt = total_lefts.sqrt().saturating_mul(total_rights.sqrt());
+    // The liquidity issued is split in proportion to each deposit's sqrt(left)*sqrt(right); the
+    // denominator is the sum of those weights, so that the shares can never add up to more than
+    // what was issued (sqrt(a)*sqrt(b) summed over deposits can exceed sqrt(sum a)*sqrt(sum b)).
+    let total_mtsqrt: u128 = deposits
+        .iter()
+        .map(|tx| {
+            tx.outputs[0]
+                .value
+                .0
+                .sqrt()
+                .saturating_mul(tx.outputs[1].value.0.sqrt())
+        })
+        .fold(0u128, |a, b| a.saturating_add(b));
     // main logic here
     let total_liqs = if let Some(mut pool_state) = state.pools.get(pool) {
         let liq = pool_state.deposit(total_lefts, total_rights);
